@@ -17,7 +17,8 @@ import (
 
 type C02Link struct {
 	A, B   int
-	Chunks []int `json:"chunks,omitempty"` // non-empty: framed byte stream cut into these read sizes; empty: datagram link
+	Chunks []int  `json:"chunks,omitempty"` // non-empty: framed byte stream cut into these read sizes; empty: datagram link
+	Socket string `json:"socket,omitempty"` // "tcp" | "ws": the real backends on loopback through a re-chunking proxy
 }
 
 type C02Listener struct {
@@ -92,14 +93,17 @@ func execC02(b []byte) vx.Verdict {
 	}
 	var edges []vx.Edge
 	var links []*vx.Link
-	anyStream := false
+	anyStream, sockets := false, false
 	for _, l := range s.Links {
-		link := &vx.Link{A: s.IDs[l.A], B: s.IDs[l.B], CostA: 1, CostB: 1, Spec: vx.LinkSpec{Ordered: true, Frame: l.Chunks}}
+		link := &vx.Link{A: s.IDs[l.A], B: s.IDs[l.B], CostA: 1, CostB: 1, Spec: vx.LinkSpec{Ordered: true, Frame: l.Chunks, Socket: l.Socket}}
 		m.AddLink(link)
 		links = append(links, link)
 		edges = append(edges, vx.Edge{A: s.IDs[l.A], B: s.IDs[l.B], Cost: 1})
-		if len(l.Chunks) > 0 {
+		if len(l.Chunks) > 0 || l.Socket != "" {
 			anyStream = true
+		}
+		if l.Socket != "" {
+			sockets = true
 		}
 	}
 	exp := expectedTables(s.IDs, edges)
@@ -282,6 +286,9 @@ func execC02(b []byte) vx.Verdict {
 	var splits int64
 	for _, l := range links {
 		splits += l.StreamSplits()
+	}
+	if sockets {
+		labels = append(labels, "real-socket-links")
 	}
 	if anyStream {
 		labels = append(labels, "stream-links")
